@@ -5,6 +5,16 @@ run_graph_shape : export with RDFWriter(docs).convert_to_rdf() (sub-classing off
                   the shape of the rdflib graph with a predicate written from the statement.
 run_roundtrip   : {xml, nt, json-ld, turtle, n3} x {string, file, odml.save/odml.load} export + import and
                   compare with an own order-insensitive snapshot.
+run_writer_history : usage histories of the export side.  Every public export entry point of RDFWriter
+                  (convert_to_rdf, str(), __unicode__(), get_rdf_str(fmt), write_file(path, fmt)) called 1..3 times in
+                  every order on ONE instance and on fresh instances over the same document objects, optionally with
+                  the documents edited between two calls; one ODMLWriter('RDF') instance used for several documents.
+                  Every produced graph / text / file is judged on its own with the graph-shape predicate and the
+                  import comparison: what an export yields must not depend on what the instance did before.
+run_reader_history : usage histories of the import side.  One RDFReader (from_string, from_file, to_odml, constructor
+                  with file) and one ODMLReader('RDF') (from_string, from_file) used 1..3 times in every order on
+                  texts/files of two different document sets: every call returns exactly the documents of the graph
+                  it was given.
 
 The oracle never uses odml.format / the writer's tables: namespace, predicate names and the sub-class map
 (read from the yaml resource, which is data) are spelled out here.
@@ -190,8 +200,9 @@ class _Limited(object):
 # graph shape
 # ---------------------------------------------------------------------------------------------
 
-def _lit_matches(lit, value):
-    """Does the rdflib literal denote exactly the python value?"""
+def _lit_matches(lit, value, approx=False):
+    """Does the rdflib literal denote exactly the python value?  approx: floats may differ in the 6th significant
+    digit (graphs parsed from turtle / n3 text: known dependency finding of run_roundtrip, not judged twice)."""
     if not isinstance(lit, Literal):
         return False
     if isinstance(value, (dt.date, dt.datetime, dt.time)) and not isinstance(lit.toPython(), type(value)):
@@ -201,7 +212,7 @@ def _lit_matches(lit, value):
     if isinstance(value, bool) or isinstance(pv, bool):
         return type(pv) is type(value) and pv == value
     if isinstance(value, float):
-        return isinstance(pv, float) and repr(pv) == repr(value)
+        return isinstance(pv, float) and (repr(pv) == repr(value) or (approx and _close(pv, value)))
     if isinstance(value, int):
         return isinstance(pv, int) and pv == value
     if isinstance(value, str):
@@ -210,7 +221,7 @@ def _lit_matches(lit, value):
     return pv == value
 
 
-def check_graph(g, docs, mode, smap):
+def check_graph(g, docs, mode, smap, approx=False):
     """Yield (clause, feature, detail) for every violated clause of the export part of the statement."""
     if not docs:
         return
@@ -256,7 +267,7 @@ def check_graph(g, docs, mode, smap):
                     yield 'exactly-set-attributes', '%s.%s-unset-but-exported' % (kind, pred), \
                         '%s %s: attribute is None but graph has %r' % (kind, obj._id, got)
                 continue
-            if len(got) != 1 or not _lit_matches(got[0], val):
+            if len(got) != 1 or not _lit_matches(got[0], val, approx):
                 if not got and not val and not isinstance(val, str):
                     feat = '%s.%s-falsy-number-not-exported' % (kind, pred)
                 elif not got:
@@ -376,11 +387,24 @@ def check_graph(g, docs, mode, smap):
                 yield 'values-ordered-seq', 'tuple-member-not-literal', 'property %s' % p._id
             continue
         for i, v in enumerate(vals, 1):
-            if not _lit_matches(members[i][0], v):
+            if not _lit_matches(members[i][0], v, approx):
                 yield 'values-ordered-seq', 'value-mismatch(%s)' % p._dtype, \
                     'property %s: value %d is %r, member rdf:_%d is %r (%s)' % (
                         p._id, i, v, i, str(members[i][0]), members[i][0].datatype)
                 break
+
+    # --- nothing else: every node that carries statements is the Hub, an exported object, the value sequence
+    # a Property links, a terminology node linked by hasTerminology, or a class declaration
+    known = {HUB} | {U(o._id) for o in list(docs) + all_secs + all_props}
+    known |= {o for p in all_props for o in g.objects(U(p._id), U('hasValue'))}
+    known |= set(g.objects(None, U('hasTerminology')))
+    known |= {U('Section')} | set(g.subjects(RDFS.subClassOf, U('Section')))
+    extra = sorted(set(g.subjects()) - known, key=str)
+    if extra:
+        kinds = sorted({str(t).replace(str(RDF), 'rdf:').replace(NS, 'odml:')
+                        for n in extra for t in g.objects(n, RDF.type)}) or ['untyped']
+        yield 'no-extra-nodes', '+'.join(kinds), '%d node(s) of the graph belong to no exported object: %r ...' % (
+            len(extra), [str(n) for n in extra[:3]])
 
 
 def run_graph_shape(tier, seed):
@@ -520,6 +544,8 @@ def compare(src, got, fmt):
                     feat = 'dependency:rdflib-turtle-n3-shorthand-double-loses-precision(values)'
                 elif sorted(map(repr, v)) == sorted(map(repr, w)):
                     feat = 'values-reordered(%s)' % dtype
+                elif v and len(w) > len(v) and len(w) % len(v) == 0 and tuple(w) == tuple(v) * (len(w) // len(v)):
+                    feat = 'values-repeated(%s)' % dtype
                 else:
                     feat = 'values-changed(%s)' % dtype
             else:
@@ -629,4 +655,464 @@ def run_roundtrip(tier, seed):
                             fail(clause, feature, detail)
     finally:
         shutil.rmtree(WORKDIR, ignore_errors=True)
+    return col.result()
+
+
+# ---------------------------------------------------------------------------------------------
+# usage histories (one writer / reader instance used several times)
+# ---------------------------------------------------------------------------------------------
+#
+# The statement quantifies over exports and imports, not over "the first export of a new writer": what an
+# entry point yields for given documents must not depend on what the instance (or another instance) was used
+# for before.  Each step of a history is therefore judged on its own, with the same oracles as above.
+
+SINGLE_VALUED = ('hasAuthor', 'hasDocVersion', 'hasDate', 'hasName', 'hasType', 'hasDefinition', 'hasReference',
+                 'hasDtype', 'hasUnit', 'hasUncertainty', 'hasValueOrigin', 'hasValue', 'hasTerminology')
+W_KINDS = ('convert', 'str', 'string', 'file')                # 'unicode' only in the full alphabet (alias of str)
+W_FULL = (('convert',), ('str',), ('unicode',)) + tuple(('string', f) for f in FORMATS) + \
+    tuple(('file', f) for f in FORMATS)
+WHIST_DIR = os.path.join(h.WORK, 'b_C10.whist.tmp')
+RHIST_DIR = os.path.join(h.WORK, 'b_C10.rhist.tmp')
+
+
+def check_functional(g):
+    """Reading-independent part of "one node carrying exactly its set attributes": no node carries two
+    different statements for an attribute an odML object has only one of."""
+    for pred in SINGLE_VALUED:
+        count = {}
+        for s, _o in g.subject_objects(U(pred)):
+            if s == HUB:
+                continue              # the Hub lists every terminology of the graph
+            count[s] = count.get(s, 0) + 1
+        many = sorted(str(s) for s, n in count.items() if n > 1)
+        if many:
+            yield 'attributes-single-valued', pred, '%d node(s) carry more than one %s, e.g. %s' % (
+                len(many), pred, many[0])
+
+
+def history_doc_sets(tier, seed):
+    """(label, [documents]) for the history checks: small enough to run hundreds of histories on each, and
+    covering several values per Property, empty Properties, all optional attributes, mapped Section types,
+    terminology nodes, equal-content documents and lists of documents."""
+    out = []
+    with h.quiet():
+        doc = odml.Document(author='h', version='1', date=dt.date(2021, 2, 3))
+        sec = odml.Section(name='s', type='recording', parent=doc, definition='d "q"\nnl')
+        odml.Property(name='ints', dtype='int', parent=sec, values=[3, 1, 2, 2 ** 70])
+        odml.Property(name='strs', dtype='string', parent=sec, values=['b', 'a', 'b', 'nl\nnl', 'é "q"'],
+                      definition='pd', reference='pr', value_origin='f.dat')
+        odml.Property(name='fl', dtype='float', parent=sec, values=[2.5, -0.125], unit='mV', uncertainty=0.5)
+        odml.Property(name='empty', dtype='int', parent=sec, values=[])
+        sub = odml.Section(name='sub', type='t', parent=sec)
+        odml.Property(name='flags', dtype='boolean', parent=sub, values=[True, False, True])
+        odml.Property(name='one', dtype='date', parent=sub, values=[dt.date(2020, 1, 2)])
+        out.append(('hist-basic', [doc]))
+
+        a, b = odml.Document(author='t'), odml.Document(author='t')
+        for d in (a, b):
+            sec = odml.Section(name='s', type='t', parent=d)
+            odml.Property(name='p', values=[1, 2], parent=sec)
+            odml.Property(name='q', values=['x'], parent=sec)
+        out.append(('hist-same-template', [a, b]))
+    spec = dict(special_docs())
+    out.append(('repositories', [spec['repositories']]))
+    out.append(('mapped-section-types', [spec['mapped-section-types']]))
+    gen = [d for d in h.gen_docs(tier, seed, per_shape=2) if sum(1 for p in h.walk(d)[1] if p._values) >= 2]
+    rnd = random.Random(seed + 29)
+    rnd.shuffle(gen)
+    out.append(('gen-a', [gen[0]]))
+    out.append(('gen-list2', [gen[1], gen[2]]))
+    if tier != 'quick':
+        out.append(('numeric-and-text', [spec['numeric-and-text']]))
+        out.append(('uncertainties', [spec['uncertainties']]))
+        out.append(('tuples', [spec['tuples']]))
+        out.append(('empty-document', [spec['empty-document']]))
+        out.append(('gen-list3', [gen[3], gen[4], spec['all-dtypes']]))
+        for k in range(5, min(len(gen), 11)):
+            out.append(('gen[%d]' % k, [gen[k]]))
+    return out
+
+
+def _edit(docs, k):
+    """Edit the first document through the public API: change an attribute, rename, add a value, remove a Property,
+    add a Property."""
+    with h.quiet():
+        d = docs[0]
+        d.author = 'edited %d' % k
+        secs, props = h.walk(d)
+        if not secs:
+            odml.Section(name='added%d' % k, type='t', parent=d)
+            return
+        s = secs[0]
+        s.definition = 'edited %d' % k
+        s.name = s.name + 'x'
+        plain = [p for p in props if p._values and not (p._dtype or '').endswith('-tuple')]
+        if plain:
+            plain[0].values = list(plain[0].values) + [plain[0].values[0]]
+        if len(props) > 1:
+            props[-1].parent.remove(props[-1])
+        odml.Property(name='added%d' % k, values=[k, k + 1], parent=s)
+
+
+def _kind_histories(maxlen, with_edit):
+    """All sequences of 1..maxlen steps over the entry point kinds (and 'edit'), ending with an export and
+    without two edits in a row."""
+    alphabet = W_KINDS + (('edit',) if with_edit else ())
+    for n in range(1, maxlen + 1):
+        for seq in itertools.product(alphabet, repeat=n):
+            if seq[-1] == 'edit' or any(x == y == 'edit' for x, y in zip(seq, seq[1:])):
+                continue
+            yield seq
+
+
+def _with_formats(seq, rot):
+    """Give every string/file step a serialisation; `rot` rotates so that over all histories every
+    serialisation occurs at every position and after every other one."""
+    out = []
+    for i, kind in enumerate(seq):
+        if kind in ('string', 'file'):
+            out.append((kind, FORMATS[(rot + i * (1 + rot // len(FORMATS))) % len(FORMATS)]))
+        else:
+            out.append((kind,))
+    return tuple(out)
+
+
+def _written(path):
+    """write_file may add the extension of the serialisation to the name it was given"""
+    if os.path.exists(path):
+        return path
+    d = os.path.dirname(path)
+    cand = [f for f in os.listdir(d) if f.startswith(os.path.basename(path))]
+    return os.path.join(d, cand[0]) if len(cand) == 1 else None
+
+
+def _judge_import(back, snaps, alt_snaps, fmt):
+    """Imported documents against the snapshots of the exported ones.  alt_snaps: a second admissible reading
+    (documents as they were when the writer was created), failures are reported only if both readings fail."""
+    def against(ref):
+        res = []
+        lst = back if isinstance(back, list) else [back]
+        ids = sorted(str(getattr(b, '_id', None)) for b in lst)
+        if ids != sorted(ref):
+            return [('one-document-per-document', 'count-or-ids', 'exported ids %r, imported %r' % (sorted(ref), ids))]
+        for b in lst:
+            res.extend(compare(ref[b._id], flat(b), fmt))
+        return res
+    res = against(snaps)
+    if res and alt_snaps is not None and not against(alt_snaps):
+        return []
+    return [r for r in res if not r[1].startswith('dependency:')]     # judged (and listed as known) by run_roundtrip
+
+
+def _usage(instance, step, edited):
+    if edited:
+        return 'export-after-edit-of-documents(%s-writer)' % instance
+    if step == 0:
+        return 'first-export'
+    return 'repeated-export-same-writer' if instance == 'same' else 'later-export-fresh-writer'
+
+
+def _writer_history(lim, label, base_docs, hist, instance, modeinfo, tier, seed, tag):
+    mode, kw, smap = modeinfo
+    has_edit = ('edit',) in hist
+    if has_edit:
+        with h.quiet():
+            docs = [d.clone() for d in base_docs]
+    else:
+        docs = list(base_docs)
+    wit = {'docs': label, 'history': [list(op) for op in hist], 'instance': instance, 'mode': mode,
+           'tier': tier, 'seed': seed}
+    ctor = {d._id: flat(d) for d in docs}
+    st, writer = h.call(lambda: RDFWriter(list(docs), **kw))
+    if st == 'exc':
+        lim.fail(check='C10.writer_history/export-does-not-raise',
+                 cls={'clause': 'export-does-not-raise', 'feature': type(writer).__name__, 'usage': 'constructor'},
+                 witness=wit, detail='RDFWriter(...) raised %r' % (writer,))
+        return
+    edits = 0
+    exports = 0
+    for i, op in enumerate(hist):
+        kind = op[0]
+        if kind == 'edit':
+            edits += 1
+            _edit(docs, edits)
+            continue
+        if instance == 'fresh' and exports > 0:
+            st, writer = h.call(lambda: RDFWriter(list(docs), **kw))
+            ctor = {d._id: flat(d) for d in docs}
+        cur = {d._id: flat(d) for d in docs}
+        edited = cur != ctor
+        usage = _usage(instance, exports, edited)
+        exports += 1
+
+        def fail(clause, feature, detail):
+            lim.fail(check='C10.writer_history/%s' % clause,
+                     cls={'clause': clause, 'feature': feature, 'usage': usage},
+                     witness=dict(wit, step=i), detail='step %d %r: %s' % (i, op, detail))
+
+        fmt = op[1] if len(op) > 1 else 'turtle'
+        path = os.path.join(WHIST_DIR, '%s%s' % (tag, EXT[fmt]))
+        if kind == 'convert':
+            st, res = h.call(writer.convert_to_rdf)
+        elif kind == 'str':
+            st, res = h.call(str, writer)
+        elif kind == 'unicode':
+            st, res = h.call(writer.__unicode__)
+        elif kind == 'string':
+            st, res = h.call(writer.get_rdf_str, fmt)
+        else:
+            st, res = h.call(writer.write_file, path, fmt)
+        if st == 'exc':
+            fail('export-does-not-raise', type(res).__name__, 'raised %r' % (res,))
+            continue
+        # ---- the graph this export describes, read independently of the library
+        if kind == 'convert':
+            g = res
+        else:
+            if kind == 'file':
+                real = _written(path)
+                if real is None:
+                    fail('export-writes-file', 'write_file', 'no file written for %s' % path)
+                    continue
+                with open(real, encoding='utf-8') as f:
+                    res = f.read()
+            if not isinstance(res, str):
+                fail('export-yields-text', kind, 'returned %s' % type(res).__name__)
+                continue
+            from rdflib import Graph
+            st, g = h.call(lambda: Graph().parse(data=res, format=fmt))
+            if st == 'exc':
+                fail('export-is-parsable', fmt, 'rdflib cannot parse the %s text: %r' % (fmt, g))
+                continue
+        seen = set()
+        if edited:
+            # which state of the documents an old writer exports is left open: only what holds for both
+            problems = check_functional(g)
+        else:
+            problems = check_graph(g, docs, mode, smap, approx=(kind != 'convert' and fmt in ('turtle', 'n3')))
+        for clause, feature, detail in problems:
+            if (clause, feature) not in seen:
+                seen.add((clause, feature))
+                fail(clause, feature, detail)
+        # ---- import with a new reader
+        if kind == 'convert':
+            continue
+        if kind == 'file':
+            st, back = h.call(lambda: RDFReader().from_file(real, fmt))
+            os.remove(real)
+        else:
+            st, back = h.call(lambda: RDFReader().from_string(res, fmt))
+        if st == 'exc':
+            fail('import-does-not-raise', type(back).__name__, 'import raised %r' % (back,))
+            continue
+        for clause, feature, detail in _judge_import(back, cur, ctor if edited else None, fmt):
+            if (clause, feature) not in seen:
+                seen.add((clause, feature))
+                fail(clause, feature, detail)
+
+
+def _wrapper_writer_history(lim, docs2, hist, tier, seed, tag):
+    """One ODMLWriter('RDF') used for several exports of two different documents."""
+    from odml.tools.odmlparser import ODMLWriter
+    st, writer = h.call(ODMLWriter, 'RDF')
+    wit = {'docs': [lab for lab, _d in docs2], 'history': [list(op) for op in hist], 'instance': 'ODMLWriter',
+           'tier': tier, 'seed': seed}
+    for i, (kind, which, fmt) in enumerate(hist):
+        doc = docs2[which][1]
+        cur = {doc._id: flat(doc)}
+        usage = 'first-export' if i == 0 else 'repeated-export-same-ODMLWriter'
+
+        def fail(clause, feature, detail):
+            lim.fail(check='C10.writer_history/%s' % clause,
+                     cls={'clause': clause, 'feature': feature, 'usage': usage},
+                     witness=dict(wit, step=i), detail='step %d %r: %s' % (i, (kind, which, fmt), detail))
+
+        path = os.path.join(WHIST_DIR, '%s%s' % (tag, EXT[fmt]))
+        if kind == 'string':
+            st, res = h.call(writer.to_string, doc, rdf_format=fmt)
+        else:
+            st, res = h.call(writer.write_file, doc, path, rdf_format=fmt)
+        if st == 'exc':
+            fail('export-does-not-raise', type(res).__name__, 'raised %r' % (res,))
+            continue
+        if kind == 'file':
+            if not os.path.exists(path):
+                fail('export-writes-file', 'ODMLWriter.write_file', 'no file %s' % path)
+                continue
+            st, back = h.call(lambda: RDFReader().from_file(path, fmt))
+            os.remove(path)
+        else:
+            st, back = h.call(lambda: RDFReader().from_string(res, fmt))
+        if st == 'exc':
+            fail('import-does-not-raise', type(back).__name__, 'import raised %r' % (back,))
+            continue
+        for clause, feature, detail in _judge_import(back, cur, None, fmt):
+            fail(clause, feature, detail)
+
+
+def run_writer_history(tier, seed):
+    col = h.Collector('C10.writer_history',
+                      rule='histories of 1..3 calls of the export entry points {convert_to_rdf, str, get_rdf_str(fmt), '
+                           'write_file(fmt)} (+ "documents edited" between calls) in every order on one RDFWriter and '
+                           'on a new RDFWriter per call over the same document objects, serialisations rotating; '
+                           'the full alphabet of 13 entry point x serialisation pairs (incl. __unicode__) in every '
+                           'order up to length 2 (quick) / 3 (thorough, two document sets); histories of one '
+                           'ODMLWriter("RDF") over two documents; x 6 (quick) / 17 document sets, sub-classing mode '
+                           'rotating; every step judged with the graph-shape predicate on the independently parsed '
+                           'output and the import comparison; class = (instance, entry point kinds in order, #docs, '
+                           '#sections, #props, feature set)',
+                      exhaustive=False)
+    shutil.rmtree(WHIST_DIR, ignore_errors=True)
+    os.makedirs(WHIST_DIR)
+    default_map = default_subclass_map()
+    custom = dict(default_map)
+    custom.update(CUSTOM_MAP)
+    modes = (('on', dict(), default_map),
+             ('off', dict(rdf_subclassing=False), {}),
+             ('custom', dict(custom_subclasses=dict(CUSTOM_MAP)), custom))
+    lim = _Limited(col, per_cls=3)
+    quick = tier == 'quick'
+    try:
+        sets = history_doc_sets(tier, seed)
+        n = 0
+        for k, (label, docs) in enumerate(sets):
+            feats = features_of(docs)
+            plans = [('same', hist) for hist in _kind_histories(3, True)]
+            plans += [('fresh', hist) for hist in _kind_histories(2 if quick else 3, True)]
+            for instance, seq in plans:
+                n += 1
+                hist = _with_formats(seq, n)
+                col.case(cls_key=(instance, seq) + feats, sample='%s/%s/%s' % (label, instance, '>'.join(seq)))
+                _writer_history(lim, label, docs, hist, instance, modes[(k + n) % 3], tier, seed, 'k%d' % n)
+            # full alphabet: every entry point x serialisation after every other one
+            if quick and k >= 2:
+                continue
+            full_len = 3 if (not quick and k < 2) else 2
+            for m in range(1, full_len + 1):
+                for hist in itertools.product(W_FULL, repeat=m):
+                    n += 1
+                    col.case(cls_key=('same', hist) + feats,
+                             sample='%s/same/%s' % (label, '>'.join('-'.join(op) for op in hist)))
+                    _writer_history(lim, label, docs, hist, 'same', modes[(k + n) % 3], tier, seed, 'f%d' % n)
+        # one ODMLWriter('RDF') for several documents
+        single = [(lab, ds[0]) for lab, ds in sets if len(ds) == 1 and _saveable(ds[0])]
+        pairs = [single[:2]] if quick else [single[i:i + 2] for i in range(0, len(single) - 1, 2)]
+        ops = [(kind, which) for kind in ('string', 'file') for which in (0, 1)]
+        for docs2 in pairs:
+            feats = features_of([d for _lab, d in docs2])
+            for m in (1, 2, 3):
+                for seq in itertools.product(ops, repeat=m):
+                    n += 1
+                    hist = tuple((kind, which, FORMATS[(n + i) % len(FORMATS)]) for i, (kind, which) in enumerate(seq))
+                    col.case(cls_key=('ODMLWriter', seq) + feats,
+                             sample='ODMLWriter/%s' % '>'.join('%s%d' % op for op in seq))
+                    _wrapper_writer_history(lim, docs2, hist, tier, seed, 'o%d' % n)
+    finally:
+        shutil.rmtree(WHIST_DIR, ignore_errors=True)
+    return col.result()
+
+
+# ---------------------------------------------------------------------------------------------
+
+def _reader_history(lim, reader_kind, sources, init, hist, tier, seed):
+    """sources: {name: {'label', 'snaps', 'text': {fmt: str}, 'file': {fmt: path}}};  init: None or (name, fmt)"""
+    from odml.tools.odmlparser import ODMLReader as OReader
+    wit = {'reader': reader_kind, 'constructed-with': list(init) if init else None,
+           'history': [list(op) for op in hist], 'sources': {k: v['label'] for k, v in sources.items()},
+           'tier': tier, 'seed': seed}
+    if reader_kind == 'ODMLReader':
+        st, reader = h.call(OReader, 'RDF')
+    elif init:
+        st, reader = h.call(RDFReader, sources[init[0]]['file'][init[1]], init[1])
+    else:
+        st, reader = h.call(RDFReader)
+    loaded = init               # (source name, fmt) of the graph the reader holds
+    if st == 'exc':
+        lim.fail(check='C10.reader_history/import-does-not-raise',
+                 cls={'clause': 'import-does-not-raise', 'feature': type(reader).__name__, 'usage': 'constructor'},
+                 witness=wit, detail='constructor raised %r' % (reader,))
+        return
+    for i, op in enumerate(hist):
+        kind = op[0]
+        usage = 'first-import' if i == 0 else 'repeated-import-same-%s' % reader_kind
+
+        def fail(clause, feature, detail):
+            lim.fail(check='C10.reader_history/%s' % clause,
+                     cls={'clause': clause, 'feature': feature, 'usage': usage},
+                     witness=dict(wit, step=i), detail='step %d %r: %s' % (i, op, detail))
+
+        if kind == 'to_odml':
+            st, back = h.call(reader.to_odml)
+        else:
+            loaded = (op[1], op[2])
+            src = sources[op[1]]
+            if kind == 'from_string':
+                st, back = h.call(reader.from_string, src['text'][op[2]], op[2])
+            else:
+                st, back = h.call(reader.from_file, src['file'][op[2]], op[2])
+        if st == 'exc':
+            fail('import-does-not-raise', type(back).__name__, 'raised %r' % (back,))
+            continue
+        # judge now: the list handed out may be the reader's own, changed by the next call
+        for clause, feature, detail in _judge_import(back, sources[loaded[0]]['snaps'], None, loaded[1]):
+            fail(clause, feature, detail)
+
+
+def run_reader_history(tier, seed):
+    col = h.Collector('C10.reader_history',
+                      rule='histories of 1..3 imports in every order on one RDFReader (created empty or with a file; '
+                           'from_string / from_file of source A or B, to_odml of the graph it holds) and on one '
+                           'ODMLReader("RDF") (from_string / from_file of A or B); A, B = texts and files exported by '
+                           'new writers from two different document sets (1 pair quick, 4 pairs thorough), '
+                           'serialisations rotating; every call must return exactly the documents of the graph it '
+                           'read; class = (reader, start, calls in order, #docs/#sections/#props/features of A and B)',
+                      exhaustive=False)
+    shutil.rmtree(RHIST_DIR, ignore_errors=True)
+    os.makedirs(RHIST_DIR)
+    lim = _Limited(col, per_cls=3)
+    try:
+        sets = history_doc_sets(tier, seed)
+        by = dict(sets)
+        pairs = [('hist-same-template', 'hist-basic')]
+        if tier != 'quick':
+            pairs += [('gen-a', 'gen-list2'), ('repositories', 'mapped-section-types'), ('gen-list3', 'uncertainties')]
+        n = 0
+        for pi, (la, lb) in enumerate(pairs):
+            sources = {}
+            ok = True
+            for name, lab in (('A', la), ('B', lb)):
+                docs = by[lab]
+                src = {'label': lab, 'snaps': {d._id: flat(d) for d in docs}, 'text': {}, 'file': {}}
+                for fmt in FORMATS:
+                    st, text = h.call(lambda: RDFWriter(list(docs)).get_rdf_str(fmt))
+                    if st == 'exc':
+                        ok = False        # export failures are judged by the other parts
+                        break
+                    src['text'][fmt] = text
+                    path = os.path.join(RHIST_DIR, 'p%d%s%s' % (pi, name, EXT[fmt]))
+                    with open(path, 'w', encoding='utf-8') as f:
+                        f.write(text)
+                    src['file'][fmt] = path
+                sources[name] = src
+            if not ok:
+                continue
+            feats = features_of(by[la]) + features_of(by[lb])
+            loads = [(kind, name) for kind in ('from_string', 'from_file') for name in ('A', 'B')]
+            for reader_kind, inits, alphabet in (
+                    ('RDFReader', (None, 'A', 'B'), loads + [('to_odml',)]),
+                    ('ODMLReader', (None,), loads)):
+                for init in inits:
+                    for m in (1, 2, 3):
+                        for seq in itertools.product(alphabet, repeat=m):
+                            if init is None and seq[0] == ('to_odml',):
+                                continue          # precondition of to_odml: a graph has been read
+                            n += 1
+                            hist = tuple(op if op[0] == 'to_odml' else op + (FORMATS[(n + i) % len(FORMATS)],)
+                                         for i, op in enumerate(seq))
+                            start = (init, FORMATS[n % len(FORMATS)]) if init else None
+                            col.case(cls_key=(reader_kind, init, seq) + feats,
+                                     sample='%s(%s)/%s' % (reader_kind, init or '', '>'.join('-'.join(op) for op in seq)))
+                            _reader_history(lim, reader_kind, sources, start, hist, tier, seed)
+    finally:
+        shutil.rmtree(RHIST_DIR, ignore_errors=True)
     return col.result()
